@@ -329,9 +329,21 @@ def main():
         for fl in r.failures:
             props = label_props(fl["label"])
             if not props:
+                # an obligation without a label of its own (overflow, termination, an unlabelled
+                # invariant or hint): it belongs to every property named by the contract of the
+                # function it occurs in (and to C10 where the unit serves it)
                 props = [default_prop]
+                if fl.get("function") and r.unit is not None:
+                    for f_ in r.unit.functions:
+                        if f_["key"] == fl["function"]:
+                            a, b = f_["gen_lines"]
+                            for ln, lab in r.unit.labels.items():
+                                if a <= ln <= b:
+                                    for p_ in label_props(lab):
+                                        if p_ not in props:
+                                            props.append(p_)
                 fname = (fl["function"] or "?").split(".")[-1]
-                fl["label_full"] = "%s.%s.unlabelled:%s" % (default_prop, fname, fl["message"])
+                fl["label_full"] = "%s.%s.unlabelled:%s" % ("+".join(props), fname, fl["message"])
             else:
                 fl["label_full"] = fl["label"]
             if prop not in props:
